@@ -59,6 +59,9 @@ impl ArrivalCurvePrefix {
         Self::new(
             horizon,
             ab.steps_iter()
+                // a zero-length interval is not a step (but `ArrivalCurvePrefix::steps_iter`
+                // itself yields one first)
+                .filter(|delta| delta.is_non_zero())
                 .take_while(|delta| *delta <= horizon.max(Duration::epsilon()))
                 .map(|delta| (delta, ab.number_arrivals(delta)))
                 .collect(),
